@@ -20,14 +20,14 @@ import (
 func init() {
 	core.Register(&core.Part{
 		Name: "C04.fence", Prop: "C04", Race: true,
-		Cases: func(tier string) int { return tierN(tier, 100, 3000) },
+		Cases: func(tier string) int { return tierN(tier, 100, 1500) },
 		Run: func(tier string, seed uint64, idx int) core.Result {
 			return runChaos("C04", "C04.fence", tier, seed, idx)
 		},
 		Rule: "the C03 schedules with fences placed in the middle of fire-and-forget write bursts while the hook follower.sync.before delays the follower's sync goroutine (appended-but-unsynced entries exist when NewTerm arrives) and leader.write.allocated delays writers; " +
 			"after every successful NewTerm(T, head) answer, on that node: the synced and the appended end of its log equal the reported head, stay equal while it is polled (no entry of a term >= T can have reached it yet: the harness is the coordinator), a client write is refused, stale Truncate / BecomeLeader / AddFollower of term T-1 are refused and change nothing, and no ack for an offset above the reported head leaves on a stream of an older term; " +
 			"non-trivial = >= 1 fence landed while the node had in-flight appends (appended or received within the last burst); distinct = schedule",
-		MinNontrivial:    func(tier string) int { return tierN(tier, 30, 900) },
+		MinNontrivial:    func(tier string) int { return tierN(tier, 30, 450) },
 		RequiredCounters: []string{"fences_checked", "fence_polls", "stale_messages_refused", "fences_during_inflight_appends"},
 		CaseTimeoutS:     180,
 		Weight:           2,
